@@ -50,6 +50,9 @@ def concretise(ms, rng, variant):
             size = len(data)
         mm = {"name": name, "visor": m["visor"], "dir": m["dir"], "size": size, "inline": m["inline"], "slot": m["slot"],
               "data": data, "prefix": prefix}
+        if variant.get("hdrwords") and m["visor"]:
+            # header words next to the data offset that do not take part in locating the data
+            mm["hdr"] = {"word500": rng.choice([0, 1, 0x1000, 0xFFFFFFFF]), "text_pgs": rng.choice([0, 3, 0xFFFF]), "fixup_pgs": rng.choice([0, 1, 0x10000])}
         if variant.get("typeflags") and not m["dir"]:
             mm["typeflag"] = rng.choice([b"0", b"\0", b"7"])   # the three type flags every tar reader treats as a regular file
         if m.get("ext"):
@@ -101,6 +104,28 @@ def check_archive(ctx, ms, members, blob, variant, attrs):
                 if data != m["data"]:
                     ctx.violation({**attrs, "fail": "extract-mismatch", "mode": mode}, {**det, "member": m["name"], "got_len": len(data), "want_len": len(m["data"])})
                     return False
+    # an ordinary tar archive behind other bytes in the same file, handed over as a file object positioned at its start, is
+    # read from there (as the standard reader does).  Not done for gzip wrapping: the standard GzipFile rewinds the
+    # underlying file to offset 0 on a backward seek, whoever calls it.
+    prefix = b"SIGNATURE-BLOCK" + bytes(range(256)) * 3
+    embedded = []
+    if not any(m["visor"] for m in members):
+        embedded.append(("plain-after-prefix", prefix + bytes(-len(prefix) % 512) + blob))
+    for mode, data in embedded:
+        fh = io.BytesIO(data)
+        fh.seek(len(data) - (len(blob) if mode.startswith("plain") else len(gzip.compress(blob))))
+        try:
+            t = vmtar.open(fileobj=fh)
+            got = t.getmembers()
+            names = [g.name for g in got]
+            datas = [t.extractfile(g).read() if not g.isdir() else None for g in got]
+        except Exception as e:  # noqa: BLE001
+            ctx.violation({**attrs, "fail": "open-raised", "mode": mode, "exc": type(e).__name__}, {**det, "error": repr(e)[:300]})
+            return False
+        want_names = [m["fullname"].rstrip("/") if m.get("ext_kind") else (m["prefix"] + "/" if m["prefix"] else "") + m["name"].rstrip("/") for m in members]
+        if names != want_names or datas != [None if m["dir"] else m["data"] for m in members]:
+            ctx.violation({**attrs, "fail": "listing" if names != want_names else "extract-mismatch", "mode": mode}, {**det, "want": want_names, "got": names})
+            return False
     if not any(m["visor"] for m in members):
         # ordinary tar: must be listed and extracted exactly as by the standard reader
         std = tarfile.open(fileobj=io.BytesIO(blob))
@@ -120,6 +145,8 @@ VARIANTS = [
     {"id": "longnames", "align": 4096, "longnames": True, "trailing": 5, "tail": 3000, "salt": 3},
     {"id": "nested-tar-content", "align": 4096, "nested": True, "tail": 2048},
     {"id": "regular-type-flags", "align": 512, "typeflags": True, "salt": 5},
+    {"id": "header-words", "align": 4096, "hdrwords": True, "salt": 6},
+    {"id": "shared-data", "align": 512, "shared": True, "salt": 7},
 ]
 
 
@@ -173,6 +200,18 @@ def run(ctx):
                 if var["id"] != "base" and rng.random() < (0.3 if thorough else 0.6):
                     continue
                 members = concretise(ms, rng, var)
+                if var.get("shared"):
+                    # a visor member whose recorded offset points into bytes stored earlier in the archive (the inline data of a
+                    # preceding member): its data lies in front of its own header
+                    for a, first in enumerate(members):
+                        if first["inline"] and first["size"] >= 2 and not first["dir"]:
+                            hoff = sum(len(enc_vmtar.ext_record(x)) + 512 * (1 + (-(-x["size"] // 512) if x["inline"] else 0)) for x in members[:a]) \
+                                + len(enc_vmtar.ext_record(first))
+                            for later in members[a + 1:]:
+                                if later["visor"] and not later["inline"] and later["size"]:
+                                    n_ = min(later["size"], first["size"] - 1)
+                                    later.update(size=n_, abs_offset=hoff + 512 + 1, data=first["data"][1:1 + n_])
+                            break
                 blob, _ = enc_vmtar.build(members, data_align=var["align"], data_gap=var.get("gap", 0),
                                           trailing_blocks=var.get("trailing", 2), extra_tail=bytes(var.get("tail", 0)))
                 nt = any(m["visor"] and not m["inline"] for m in ms) or len({m["visor"] for m in ms}) > 1
